@@ -12,6 +12,7 @@ import Compass.Drv.C17
 import Compass.Drv.C19
 import Compass.Drv.C13
 import Compass.Drv.C06
+import Compass.Drv.Build
 
 /-- `driver <prop>`: reads one case per line on stdin, prints the model's canonical output line -/
 partial def loop (h : IO.FS.Stream) (out : IO.FS.Stream) (f : String → String) : IO Unit := do
@@ -25,17 +26,19 @@ partial def loop (h : IO.FS.Stream) (out : IO.FS.Stream) (f : String → String)
   loop h out f
 
 /-- the search properties C01 C03 C04 C10 carry a k-shortest-paths stream (harness/src/c13.rs
-`run_prop_stream`): a case line whose first token is `ksp` is a C13 case.  (The dispatch lives here
+`run_prop_stream`): a case line whose first token is `ksp` is a C13 case; and a stream of direct
+calls of the application's builders and query parsers (harness/src/appbuild.rs): first token `bld`.  (The dispatch lives here
 rather than in `Drv/Search.lean` because `Drv/C13.lean` imports that file for its case parser.) -/
 def searchOrKsp (line : String) : String :=
   match line.trimAscii.toString.splitOn " " with
   | "ksp" :: rest => Compass.Drv.C13.run (" ".intercalate rest)
+  | "bld" :: rest => Compass.Drv.Build.run (" ".intercalate rest)
   | _ => Compass.Drv.Search.run line
 
 def dispatch : String → Option (String → String)
   | "C09" => some Compass.Drv.C09.run
   | "C01" => some searchOrKsp
-  | "C02" => some Compass.Drv.Search.run
+  | "C02" => some searchOrKsp
   | "C03" => some searchOrKsp
   | "C04" => some searchOrKsp
   | "C05" => some Compass.Drv.Search.run
